@@ -30,8 +30,8 @@ func (s *spy) UnmarshalJSON(d []byte) error {
 }
 
 // jsonLiteral: what encoding/json does with doc for a destination of the given shape, independent of gocql:
-// "invalid" (error, UnmarshalJSON never called), "nocall" (no error, never called) or the comma-separated hex
-// literals passed to UnmarshalJSON in order.
+// "invalid" (error, UnmarshalJSON never called), "nocall" (no error, never called), "realloc" (a pointer field
+// was set to nil by a null and re-allocated) or the comma-separated hex literals passed to UnmarshalJSON in order.
 func jsonLiteral(kind string, doc []byte) string {
 	spyLits = nil
 	var err error
@@ -50,6 +50,11 @@ func jsonLiteral(kind string, doc []byte) string {
 			ID *spy `json:"id"`
 		}{&p}
 		err = json.Unmarshal(doc, &v)
+		if v.ID != nil && v.ID != &p {
+			// `"id":null` made the pointer nil and a later `"id":…` made encoding/json allocate a fresh value:
+			// the old destination is out of the picture (encoding/json behaviour, nothing of gocql involved)
+			return "realloc"
+		}
 	default:
 		panic("bad-op: kind")
 	}
@@ -472,13 +477,15 @@ func runDecode(r *vh.Rng, out *vh.Out, mult int) {
 		a = exec(op)
 		res(a)
 		out.Case(op, a, "ujson/"+pc+"/"+okerr(a), true)
-		out.Dist["ujson-data/"+cls+"/"+okerr(a)]++
+		cv := strings.SplitN(cls+"+as-is", "+", 3)
+		out.Dist["ujson-data/"+cv[0]+"/"+okerr(a)]++
+		out.Dist["ujson-framing/"+cv[1]+"/"+okerr(a)]++
 
 		kind := []string{"top", "field", "ptr"}[r.Intn(3)]
 		s, cls = genJSONDoc(r, kind)
 		lit := jsonLiteral(kind, []byte(s))
 		var want []byte
-		if lit != "invalid" && lit != "nocall" {
+		if lit != "invalid" && lit != "nocall" && lit != "realloc" {
 			ls := strings.Split(lit, ",")
 			b, _ := vh.UnHex(ls[len(ls)-1])
 			want = textOf(strings.Trim(string(b), `"`))
@@ -488,7 +495,9 @@ func runDecode(r *vh.Rng, out *vh.Out, mult int) {
 		a = exec(op)
 		res(a)
 		out.Case(op, a, "jsonu/"+kind+"/"+pc+"/"+okerr(a), true)
-		out.Dist["jsonu-doc/"+cls+"/"+okerr(a)]++
+		cv = strings.SplitN(cls+"+single", "+", 3)
+		out.Dist["jsonu-doc/"+cv[0]+"/"+okerr(a)]++
+		out.Dist["jsonu-keys/"+cv[1]+"/"+okerr(a)]++
 	}
 	// a non-hex rune at EVERY position of the canonical text (and of the bare 32 digits), dirty destination
 	for pos := 0; pos < 36; pos++ {
